@@ -179,21 +179,37 @@ Definition vattr_of_def (d : attdef) : vattr :=
   VAttr (xd_local d) (xd_prefix d) (match xd_value d with XdValue _ vs => vs | _ => [] end) true.
 Definition is_implied (d : attdef) : bool := match xd_value d with XdImplied => true | _ => false end.
 
-(** Element::attributes: [items] = attributes_specified(), extended in the loop; [declared] = namespace_attributes():
-    a namespace declaration written on the element is specified too (D65, repaired in 703c414) *)
-Fixpoint add_defaults (items declared : list vattr) (defs : list attdef) : list vattr :=
+(** [is_namespace_declaration] on the name of a definition: xmlns or xmlns:p ([p:xmlns] is an ordinary name) *)
+Definition def_namespace (d : attdef) : bool :=
+  match xd_prefix d with Some p => str_eqb p s_xmlns | None => str_eqb (xd_local d) s_xmlns end.
+Definition is_value_def (d : attdef) : bool := match xd_value d with XdValue _ _ => true | _ => false end.
+
+(** Element::attributes (after /repo bf629dc, D67): [items] = attributes_specified(), extended in the loop by every
+    definition that is not #IMPLIED (a #REQUIRED one included: D36), is no namespace declaration and whose name is not
+    among the items *)
+Fixpoint add_defaults (items : list vattr) (defs : list attdef) : list vattr :=
   match defs with
   | [] => items
   | d :: r =>
-    add_defaults (if negb (is_implied d)
+    add_defaults (if negb (is_implied d) && negb (def_namespace d)
                      && negb (existsb (fun v => qname_eq (va_local v) (va_prefix v) (xd_local d) (xd_prefix d)) items)
-                     && negb (existsb (fun v => qname_eq (va_local v) (va_prefix v) (xd_local d) (xd_prefix d)) declared)
-                  then items ++ [vattr_of_def d] else items) declared r
+                  then items ++ [vattr_of_def d] else items) r
+  end.
+(** HasQName/Element::namespace_attributes: the written declarations, extended by every definition that is a namespace
+    declaration with a default VALUE ("v" or #FIXED "v") and whose name is not among the items: a namespace declaration is
+    supplied "directly or by default" (Namespaces in XML 1.0, 3); a written one wins (D65 cannot recur) *)
+Fixpoint add_ns_defaults (items : list vattr) (defs : list attdef) : list vattr :=
+  match defs with
+  | [] => items
+  | d :: r =>
+    add_ns_defaults (if is_value_def d && def_namespace d
+                        && negb (existsb (fun v => qname_eq (va_local v) (va_prefix v) (xd_local d) (xd_prefix d)) items)
+                     then items ++ [vattr_of_def d] else items) r
   end.
 Definition element_attributes (defs : list attdef) (attrs : list attr) : list vattr :=
-  add_defaults (map vattr_of (filter (fun a => negb (attr_namespace a)) attrs)) (map vattr_of (filter attr_namespace attrs)) defs.
-Definition namespace_attributes (attrs : list attr) : list vattr :=
-  map vattr_of (filter attr_namespace attrs).
+  add_defaults (map vattr_of (filter (fun a => negb (attr_namespace a)) attrs)) defs.
+Definition namespace_attributes (defs : list attdef) (attrs : list attr) : list vattr :=
+  add_ns_defaults (map vattr_of (filter attr_namespace attrs)) defs.
 
 Definition ents_of (dt : option doctype) : list entity :=       (* what Context::entity sees *)
   match dt with Some x => dt_entities x | None => [] end.
@@ -207,7 +223,7 @@ Definition attr_row (ents : list entity) (defs : list attdef) (a : vattr) : row 
    end).
 Definition attr_rows (dt : option doctype) (local : str) (prefix : option str) (attrs : list attr) : list dtoken :=
   let defs := declaration_att_defs dt local prefix in
-  map snd (row_sort (map (attr_row (ents_of dt) defs) (namespace_attributes attrs ++ element_attributes defs attrs))).
+  map snd (row_sort (map (attr_row (ents_of dt) defs) (namespace_attributes defs attrs ++ element_attributes defs attrs))).
 
 (** ** children of an element *)
 Definition pi_token (p : ppi) : dtoken :=
